@@ -53,6 +53,8 @@ package dns
 //@   assert at "st = zExpectRrtypeBl@1" classtrack2: zp.h.Class == l.torc [C05 C06]
 // an included file starts from the includer's TTL state (the very state object: value and set-by-directive flag)
 //@   assert at "zp.sub.SetIncludeFS(zp.fsys)" inherit: zp.sub.defttl == zp.defttl && zp.sub.includeDepth == zp.includeDepth + 1 && zp.sub.includeAllowed [C06]
+// a file included from generated text is still inside that $GENERATE: nesting stays refused
+//@   assert at "zp.sub.SetIncludeFS(zp.fsys)" nestgen: zp.generateDisallowed ==> zp.sub.generateDisallowed [C07]
 //@   assert at "$INCLUDE directive not allowed" notallowed: !zp.includeAllowed [C07]
 //@   assert at "too deeply nested $INCLUDE" toodeep: zp.includeDepth >= 7 [C07]
 // a relative include path is resolved against the directory of the including file; the sub-parser reads through
@@ -97,6 +99,10 @@ package dns
 //@   requires lexinv: (zp.c.l.value == 1 ==> len(zp.c.l.token) > 0) && (zp.c.cachedL != nil ==> (zp.c.cachedL.value == 1 ==> len(zp.c.cachedL.token) > 0))
 //@   loop * invariant (zp.c.l.value == 1 ==> len(zp.c.l.token) > 0) && (zp.c.cachedL != nil ==> (zp.c.cachedL.value == 1 ==> len(zp.c.cachedL.token) > 0))
 //@   assert at "r := &generateReader{" range: 0 <= start && start <= end && step > 0 && (end - start) / step <= 65535
+// the parser of the generated text works under the includer's limits: same file system, same include permission and
+// depth, and the TTL state in force (so an omitted TTL in the template takes $TTL, else the last stated TTL)
+//@   assert at "return zp.subNext()" genfs: zp.sub.fsys == zp.fsys && zp.sub.includeAllowed == zp.includeAllowed && zp.sub.includeDepth == zp.includeDepth && zp.sub.generateDisallowed [C07]
+//@   assert at "return zp.subNext()" genttl: zp.defttl != nil ==> zp.sub.defttl == zp.defttl [C06]
 //@   assert at "zp.sub = NewZoneParser(r, zp.origin, zp.file)" geninit: geninv(r.step, r.start, r.end, r.si, len(r.s), r.eof, r.cur) && r.lex != nil
 //@   assert at "return zp.subNext()" nonest: zp.sub != nil && zp.sub.generateDisallowed
 
